@@ -325,7 +325,7 @@ class Evaluator:
                 else:
                     if not preds:
                         continue
-                    env, heap, ver = self._join(bi, [out[p] for p in preds], frame)
+                    env, heap, ver = self._join(bi, [out[p] for p in preds], frame, preds)
                 for l in widen.get(bi, ()):
                     if l == "#heap":
                         heap = {}
@@ -368,8 +368,10 @@ class Evaluator:
         if rets:
             vals = [r[0] for r in rets]
             v = vals[0]
-            for x in vals[1:]:
-                v = self._join_val(v, x, ("ret", frame_site(chain, body, 0)), 0)
+            o = rets[0][3]
+            for r in rets[1:]:
+                v = self._join_val(v, r[0], ("ret", frame_site(chain, body, 0)), 0, 0, o, r[3])
+                o = None
             res.ret = v
             # leave heap as the join of the return states
             hs = [(r[1], r[2]) for r in rets]
@@ -385,7 +387,8 @@ class Evaluator:
         self._last_out = out
         return res, changed
 
-    def _join(self, bi, states, frame):
+    def _join(self, bi, states, frame, origins=None):
+        origins = origins or [None] * len(states)
         if len(states) == 1:
             e, h, v, _ = states[0]
             return dict(e), dict(h), v
@@ -396,8 +399,10 @@ class Evaluator:
         site = frame_site(frame.chain, frame.body, bi)
         for k in keys:
             v = states[0][0][k]
-            for s in states[1:]:
-                v = self._join_val(v, s[0][k], site, k)
+            o = origins[0]
+            for s, o2 in zip(states[1:], origins[1:]):
+                v = self._join_val(v, s[0][k], site, k, 0, o, o2)
+                o = None
             env[k] = v
         h = states[0][1]
         ver = states[0][2]
@@ -409,7 +414,7 @@ class Evaluator:
                 ver = _join_ver(ver, s[2], ("j", site), diff)
         return env, dict(h), ver
 
-    def _join_val(self, a, b, site, local, depth=0):
+    def _join_val(self, a, b, site, local, depth=0, oa=None, ob=None):
         if a == b:
             return a
         ta, tb = tag(a), tag(b)
@@ -417,9 +422,9 @@ class Evaluator:
             if ta == "struct" and tb == "struct" and a[1] == b[1]:
                 fa, fb = dict(a[2]), dict(b[2])
                 if set(fa) == set(fb):
-                    return mk_struct(a[1], {k: self._join_val(fa[k], fb[k], site, (local, k), depth + 1) for k in fa})
+                    return mk_struct(a[1], {k: self._join_val(fa[k], fb[k], site, (local, k), depth + 1, oa, ob) for k in fa})
             if ta == "tuple" and tb == "tuple" and len(a[1]) == len(b[1]):
-                return ("tuple", tuple(self._join_val(x, y, site, (local, i), depth + 1) for i, (x, y) in enumerate(zip(a[1], b[1]))))
+                return ("tuple", tuple(self._join_val(x, y, site, (local, i), depth + 1, oa, ob) for i, (x, y) in enumerate(zip(a[1], b[1]))))
             if ta in ("variant", "vsum") and tb in ("variant", "vsum") and a[1] == b[1]:
                 va = dict([(a[2], a[3])]) if ta == "variant" else dict(a[2])
                 vb = dict([(b[2], b[3])]) if tb == "variant" else dict(b[2])
@@ -428,7 +433,7 @@ class Evaluator:
                     if n in va and n in vb:
                         pa, pb = va[n], vb[n]
                         if len(pa) == len(pb):
-                            outv[n] = tuple(self._join_val(x, y, site, (local, n, i), depth + 1) for i, (x, y) in enumerate(zip(pa, pb)))
+                            outv[n] = tuple(self._join_val(x, y, site, (local, n, i), depth + 1, oa, ob) for i, (x, y) in enumerate(zip(pa, pb)))
                         else:
                             outv[n] = tuple(("phi", site, (local, n, i)) for i in range(max(len(pa), len(pb))))
                     else:
@@ -438,15 +443,18 @@ class Evaluator:
                     return ("variant", a[1], n, p)
                 return ("vsum", a[1], tuple(sorted(outv.items())))
         alts = []
-        for x in (a, b):
+        origins = []
+        for x, o in ((a, oa), (b, ob)):
             if tag(x) == "phi" and len(x) > 3 and x[1] == site and x[2] == local:
                 alts.extend(x[3])
+                origins.extend(x[4])
             else:
                 alts.append(x)
-        alts = tuple(sorted(set(alts), key=repr))
-        if len(alts) > 4:
+                origins.append(o)
+        pairs = sorted(set(zip(alts, origins)), key=repr)
+        if len(pairs) > 6:
             return ("phi", site, local)
-        return ("phi", site, local, alts)
+        return ("phi", site, local, tuple(p[0] for p in pairs), tuple(p[1] for p in pairs))
 
     # ------------------------------------------------------------------ places
     def _resolve(self, frame, place):
@@ -892,7 +900,7 @@ class Evaluator:
                     live.add((bi, b))
                 live.add((bi, t["otherwise"]))
         elif k == "ret":
-            rets.append((frame.env.get(0, ("undef", frame.id, 0)), dict(self.heap), self.ver))
+            rets.append((frame.env.get(0, ("undef", frame.id, 0)), dict(self.heap), self.ver, bi))
             self._log(frame, bi, None, kind="ret", value=frame.env.get(0))
         elif k == "assert":
             cond = self.operand(frame, t["cond"])
@@ -934,6 +942,11 @@ class Evaluator:
             callee = "<indirect>"
             if tag(fv) == "fn":
                 callee = fv[1].split("::<")[0]
+        argtys = []
+        for a in t["args"]:
+            pl = place_of(a)
+            argtys.append(body.locals[pl["l"]]["ty"] if pl is not None and not pl["proj"] else ("const" if "const" in a else None))
+        self._argtys = argtys
         entry = self._log(frame, bi, None, kind="call", callee=callee, decl=t.get("callee"), args=args, substs=t.get("substs", []),
                           self_ty=t.get("self_ty"), line=t.get("line"), mac=t.get("mac"), site=site)
         val = self._model(frame, bi, t, callee, args, site, entry)
@@ -1120,8 +1133,13 @@ class Evaluator:
             return _minmax("max", args[0], args[1])
         if re.search(r"(cmp::Ord::min|cmp::min|num::<impl \w+>::min)$", c) or c.endswith("::min") and len(args) == 2 and c.startswith(("core::", "std::")):
             return _minmax("min", args[0], args[1])
-        if re.search(r"num::<impl \w+>::saturating_sub$", c):
+        if re.search(r"num::<impl u\w+>::saturating_sub$", c):
             return ("satsub", args[0], args[1])
+        if re.search(r"num::<impl i\w+>::saturating_(add|sub)$", c):
+            # signed saturation only differs from the exact result beyond +-2^63; every later comparison in this
+            # crate is against 32-bit quantities, for which the exact and the saturated value compare alike
+            entry["checked_arith"] = short
+            return add(args[0], args[1]) if short.endswith("add") else sub(args[0], args[1])
         if re.search(r"num::<impl \w+>::(checked_add|checked_sub|checked_mul|saturating_add|wrapping_add|wrapping_sub|overflowing_add)$", c):
             entry["checked_arith"] = short
             return ("call", c, tuple(args))
@@ -1213,10 +1231,14 @@ class Evaluator:
         entry["pure"] = pure
         if pure:
             return ("call", c, tuple(args))
-        if self.facts.body(c) is None and not c.startswith(("<", "allocator::", "sync::", "unsync::", "memory::", "bytes::", "object::", "options::")):
-            self._invalidate(args=args)   # external crate / std function: reaches only what it is handed
-        else:
-            self._invalidate()
+        # an opaque callee can only write memory reachable from what it is handed (the crate has no mutable statics);
+        # through a shared reference it can only write interior-mutable memory, i.e. never a plain field of a
+        # parameter struct
+        tys = getattr(self, "_argtys", [None] * len(args))
+        scalar = lambda ty: ty == "const" or (ty is not None and (INT_TY.match(ty) or ty in ("bool", "char", "()", "f32", "f64")))
+        ptrargs = [a for a, ty in zip(args, tys) if not scalar(ty)]
+        mutargs = [a for a, ty in zip(args, tys) if not scalar(ty) and not (ty and ty.startswith("&") and not ty.startswith("&mut "))]
+        self._invalidate(args=ptrargs, mutargs=mutargs)
         return ("call", c, tuple(args), site)
 
     def _combinator(self, frame, bi, kind, op, recv, f, site, entry):
@@ -1292,7 +1314,7 @@ class Evaluator:
                 e["extra_guards"].append(guard)
         return sub_res.ret
 
-    def _invalidate(self, args=None, raw=False):
+    def _invalidate(self, args=None, raw=False, mutargs=None):
         """Forget heap knowledge after an effect we do not model.
         raw=True: a raw write into arena memory - Rust-owned structs reached through a plain parameter
         (handle / arena fields) cannot alias it.  args: an opaque external call can only reach what it is given."""
@@ -1304,12 +1326,21 @@ class Evaluator:
             reach = set()
             for a in (args or ()):
                 self._reach(a, reach)
+            mreach = reach
+            if mutargs is not None:
+                mreach = set()
+                for a in mutargs:
+                    self._reach(a, mreach)
             for k, v in self.heap.items():
                 base = k[0]
-                if tag(base) == "param" and base not in reach:
+                if tag(base) == "param" and base not in mreach:
                     keep[k] = v
-            if not reach:
+            if not mreach:
                 pver = self.ver[1]
+            if args is not None and not reach and not raw:
+                # nothing reachable: the call cannot have written anything we track
+                self._vcount -= 1
+                return
         self.heap = keep
         self.ver = (nv, pver)
 
@@ -1366,6 +1397,21 @@ class Evaluator:
                 else:
                     out.append((cond, ("in", tuple(vals))))
         return out
+
+    def guards_edge(self, res, p, j, body=None):
+        """guards that hold when control flows along the CFG edge p -> j"""
+        body = body or res.body
+        gs = list(self.guards(res, p, body))
+        t = body.blocks[p]["term"]
+        if t["k"] == "switch" and p in res.conds:
+            cond = res.conds[p]
+            vals = [int(v) for v, b in t["arms"] if b == j]
+            arms_all = [int(v) for v, _ in t["arms"]]
+            if j == t["otherwise"] and not vals:
+                gs.append((cond, ("eq", 1)) if arms_all == [0] else (cond, ("ne", tuple(arms_all))))
+            elif len(vals) == 1 and j != t["otherwise"]:
+                gs.append((cond, ("eq", vals[0])))
+        return gs
 
     def _is_boolish(self, c):
         return tag(c) in ("cmp", "not", "is", "booland", "boolor", "is_null", "needs_drop") or True
@@ -1448,6 +1494,9 @@ def implied_facts(guards):
             facts |= implied_facts([(cond[1], ("eq", 0)), (cond[2], ("eq", 0))])
         elif t == "discr":
             facts.add(("discr", cond[1], rel))
+            x = cond[1]
+            if tag(x) == "call" and x[1].endswith("checked_sub") and rel[0] == "eq":
+                facts.add(("cmp", "Le", x[2][1], x[2][0]) if rel[1] == 1 else ("cmp", "Lt", x[2][0], x[2][1]))
         elif t == "is" and truth is not None:
             facts.add(("is", cond[1], cond[2], truth))
         elif truth is not None:
